@@ -189,7 +189,10 @@ CLAIMS["C08"] = dict(
          "C08_bystander_all_schedules; larger configurations by the compiled model). Real threads are driven by a sys.settrace scheduler through "
          "sampled (quick) or all (thorough) two-preemption schedules and random ones; the shared state after every "
          "scheduled step is compared with the model and each thread's events/return value with its sequential run. If "
-         "the discipline breaks, the compiled model searches a bad schedule and the scheduler replays it on real threads.",
+         "the discipline breaks, the compiled model searches a bad schedule and the scheduler replays it on real threads. "
+         "Model-free forced interleavings (stops before every source line of the tooling functions) are run as well: "
+         "among them a thread that probes, calls and leaves twice while the other is active and — always when the "
+         "skeleton cannot be extracted — every stop position of one thread against a complete run of the other.",
     design_ref="DESIGN.md section 5, C08",
     note="Assumptions (not verified): atomicity unit = one source line under CPython 3.12's GIL, ContextVar values are "
          "per thread, single dict/Counter operations are atomic; free-threaded builds, signal handlers and memory-model "
